@@ -368,13 +368,13 @@ void World::run_ctx(std::string const& ctx)
 }
 
 void World::on_handler(std::string const& h, boost::system::error_code const& ec
-	, std::string const& extra)
+	, std::string const& extra, bool run_ops)
 {
 	emit("H %s t=%lld ec=%s%s%s incall=%d", h.c_str(), (long long)now_ns(), ec_name(ec)
 		, extra.empty() ? "" : " ", extra.c_str(), api_depth > 0 ? 1 : 0);
 	// the wait's slot is known to be free again once its handler has run
 	for (auto& tp_ : timer_pending) if (tp_.second == h) { tp_.second.clear(); }
-	run_ctx(h);
+	if (run_ops) run_ctx(h);
 }
 
 std::function<void(boost::system::error_code const&)> World::make_h(std::string h)
